@@ -456,6 +456,15 @@ OPCODES = {"+": 0, "*": 1, "-": 2, "/": 3, "quotient": 4, "remainder": 5, "<": 1
 BIGS = [(1 << 62) - 1, -(1 << 62), (1 << 61), 3037000500, (1 << 62), 1 << 70]
 
 
+def _unq(a):
+    if a.startswith("(quote ") and a.endswith(")"): return a[7:-1]
+    return a[1:] if a.startswith("'") else a
+
+
+def _isint(a):
+    return _unq(a).lstrip("-").isdigit()
+
+
 class Gen:
     """let-fragment programs aimed at the case split of simplify.c: foldable arithmetic (incl. results beyond the fixnum
     range, zero divisors, non-numeric operands, wrong arity), lets binding literals / folded constants / non-constants,
@@ -463,18 +472,34 @@ class Gen:
     tests, value-only and effectful statements in non-tail sequence positions, rest parameters (rich=True)."""
     def __init__(self, rng, rich=False):
         self.rng, self.rich = rng, rich
-        self.stats = dict(fold=0, fold_raises=0, let_const=0, let_mutated=0, shadow=0, const_test=0, seq_drop=0, effect_stmt=0, rest=0)
+        self.stats = dict(fold=0, fold_raises=0, let_const=0, let_mutated=0, shadow=0, const_test=0, seq_drop=0, effect_stmt=0, rest=0,
+                          quoted=0, quoted_false_test=0, macro_cond=0)
+
+    def q(self, s):
+        """either spelling of a self-evaluating constant: as itself (analyze returns an immediate, or the heap datum) or
+        quoted (analyze makes a SEXP_LIT node around it, eval.c:1152-1161) - simplify.c tests the two with different predicates"""
+        r = self.rng.random()
+        if r < 0.3:
+            self.stats["quoted"] += 1
+            return "'" + s
+        if r < 0.36:
+            self.stats["quoted"] += 1
+            return "(quote %s)" % s
+        return s
 
     def lit(self):
         r = self.rng.random()
-        if r < 0.55: return str(self.rng.choice([0, 1, 2, 3, 5, 7, -1, -4, 10, 100]))
-        if r < 0.7: return str(self.rng.choice(BIGS))
-        if r < 0.8: return self.rng.choice(["#t", "#f"])
-        if r < 0.9: return '"s%d"' % self.rng.randrange(1, 4)
-        return "'q%d" % self.rng.randrange(1, 4)
+        if r < 0.5: return self.q(str(self.rng.choice([0, 1, 2, 3, 5, 7, -1, -4, 10, 100])))
+        if r < 0.62: return self.q(str(self.rng.choice(BIGS)))
+        if r < 0.76: return self.q(self.rng.choice(["#t", "#f", "#f"]))
+        if r < 0.84: return self.q('"s%d"' % self.rng.randrange(1, 4))
+        if r < 0.88: return self.q("#\\" + self.rng.choice("abc"))
+        if r < 0.94: return "'q%d" % self.rng.randrange(1, 4)
+        self.stats["quoted"] += 1
+        return self.rng.choice(["'()", "'(1 2)", "'(q1 . 2)", "'(#f)", "'#(1 2)"])
 
     def intlit(self):
-        return str(self.rng.choice([0, 1, 2, 3, 7, -5, 12, (1 << 62) - 1, 1 << 40, -(1 << 62), 3037000500]))
+        return self.q(str(self.rng.choice([0, 1, 2, 3, 7, -5, 12, (1 << 62) - 1, 1 << 40, -(1 << 62), 3037000500])))
 
     # scope = (names in scope, subset surely bound to integers)
     def intexpr(self, scope, d):
@@ -492,10 +517,10 @@ class Gen:
             if op == "-" and n == 0: n = 1
             args = [self.intexpr(scope, d - 1) for _ in range(n)]
             if op in ("+", "*", "-") and n >= 2 and self.rng.random() < 0.08:
-                args[self.rng.randrange(n)] = self.rng.choice(['#t', '"s1"', "'q2"] + list(names))   # evaluation raises
+                args[self.rng.randrange(n)] = self.rng.choice(['#t', "'#f", '"s1"', "'\"s2\"", "'q2", "'()", "'(1 2)", "#\\a"] + list(names))   # evaluation raises
                 self.stats["fold_raises"] += 1
-            if all(a.lstrip("-").isdigit() for a in args): self.stats["fold"] += 1
-            if op in ("quotient", "remainder") and n == 2 and args[1] == "0": self.stats["fold_raises"] += 1
+            if all(_isint(a) for a in args): self.stats["fold"] += 1
+            if op in ("quotient", "remainder") and n == 2 and _isint(args[1]) and int(_unq(args[1])) == 0: self.stats["fold_raises"] += 1
             return "(%s)" % " ".join([op] + args)
         if r < 0.85: return "(if %s %s %s)" % (self.test(scope, d), self.intexpr(scope, d - 1), self.intexpr(scope, d - 1))
         return self.let(scope, d, want_int=True)
@@ -504,11 +529,22 @@ class Gen:
         r = self.rng.random()
         if r < 0.35:
             self.stats["const_test"] += 1
-            return self.rng.choice(["#t", "#f", "0", '"s1"', "'q1", "(+ 1 2)", "(- 1 1)"] + list(scope[0]))
+            t = self.rng.choice(["#t", "#f", "'#f", "'#f", "(quote #f)", "'#t", "0", "'0", "'()", '"s1"', "'\"s1\"", "'q1", "'(1 2)", "#\\a",
+                                 "(+ 1 2)", "(- 1 1)", "(+ '#f)", "(* '#f)"] + list(scope[0]) * 2)
+            if t in ("'#f", "(quote #f)", "(+ '#f)", "(* '#f)"): self.stats["quoted_false_test"] += 1
+            return t
         return "(%s %s %s)" % (self.rng.choice(["<", "="]), self.intexpr(scope, d - 1), self.intexpr(scope, d - 1))
 
     def ifexpr(self, scope, d):
-        return "(if %s %s %s)" % (self.test(scope, d), self.expr(scope, d - 1), self.expr(scope, d - 1))
+        r = self.rng.random()
+        if r < 0.55:
+            return "(if %s %s %s)" % (self.test(scope, d), self.expr(scope, d - 1), self.expr(scope, d - 1))
+        self.stats["macro_cond"] += 1
+        if r < 0.7:
+            return "(cond (%s %s) (%s %s) (else %s))" % (self.test(scope, d), self.expr(scope, d - 1), self.test(scope, d), self.expr(scope, d - 1), self.expr(scope, d - 1))
+        if r < 0.85:
+            return "(and %s %s)" % (self.test(scope, d), self.expr(scope, d - 1))
+        return "(or %s %s)" % (self.test(scope, d), self.expr(scope, d - 1))
 
     def stmt(self, scope, d):
         names, ints = scope
@@ -520,9 +556,12 @@ class Gen:
         if r < 0.5 and iv:
             self.stats["effect_stmt"] += 1
             return "(set! %s %s)" % (self.rng.choice(iv), self.intexpr(scope, d - 1))
-        if r < 0.75:
+        if r < 0.7:
             self.stats["seq_drop"] += 1
-            return self.rng.choice([self.lit(), self.rng.choice(names) if names else "7", "(+ 1 2)", "(if #t 1 2)"])
+            return self.rng.choice([self.lit(), self.lit(), self.rng.choice(names) if names else "7", "(+ 1 2)", "(+ '1 2)", "(if #t 1 2)", "(if '#f 1 '2)"])
+        if r < 0.8:
+            self.stats["macro_cond"] += 1
+            return "(%s %s %s)" % (self.rng.choice(["when", "unless"]), self.test(scope, d), " ".join(self.stmt(scope, d - 1) for _ in range(self.rng.choice([1, 2]))))
         return self.expr(scope, d - 1)
 
     def body(self, scope, d, want_int=False):
@@ -539,7 +578,7 @@ class Gen:
             r = self.rng.random()
             if r < 0.45:
                 a = self.lit(); self.stats["let_const"] += 1
-                if a.lstrip("-").isdigit(): newints.add(nm)
+                if _isint(a): newints.add(nm)
             elif r < 0.6:
                 a = "(+ 1 %d)" % self.rng.randrange(5); self.stats["let_const"] += 1; newints.add(nm)
             else:
@@ -609,7 +648,7 @@ def to_model_tokens(toks, nm):
     def expr():
         nonlocal i
         t = toks[i]; i += 1
-        if t in ("L", "B"):
+        if t in ("L", "B", "I"):
             out.extend([t, nm.const(toks[i])]); i += 1
         elif t == "R":
             out.extend([t, str(nm.name(toks[i])), toks[i + 1]]); i += 2
@@ -651,8 +690,7 @@ def _show_const(c, nm):
     if c == "f": return "#f"
     if c == "v": return None
     inv = {v: k for k, v in nm.tags.items()}
-    s = inv[int(c[1:])]
-    return '"%s"' % s if s.startswith("s") else s
+    return inv[int(c[1:])].replace("~", " ")          # the dump harness writes the datum with (write), spaces as ~
 
 
 OUTER_PRELUDE = """(import (scheme base) (scheme write))
@@ -662,6 +700,12 @@ OUTER_PRELUDE = """(import (scheme base) (scheme write))
   (guard (e (#t (write-string "ERR") (newline)))
     (let ((v (thunk))) (write-string "RES ") (write v) (newline))))
 """
+
+
+def _heredoc_replay(text, ds, comment):
+    """a shell command that writes the Scheme program and runs it under the given builds"""
+    return ("cat > /tmp/c09r.scm <<'C09EOF'\n%sC09EOF\nfor d in %s; do echo $d; LD_LIBRARY_PATH=$d CHIBI_IGNORE_SYSTEM_PATH=1 CHIBI_MODULE_PATH=$d/lib $d/chibi-scheme /tmp/c09r.scm; done   # %s"
+            % (text if text.endswith("\n") else text + "\n", " ".join(ds), comment))
 
 
 def _run_file(d, text, name):
@@ -712,6 +756,122 @@ RICH = [  # closures, recursion, rest parameters, internal defines: compared acr
 ]
 
 
+# ---------------------------------------------------------------- (A) code compiled while handlers / parameters / wind extents are active
+HPRELUDE = """(import (scheme base) (scheme write) (scheme eval) (srfi 18))
+(define env (environment '(scheme base)))
+(define trace '())
+(define (note x) (set! trace (cons x trace)))
+(define (kind e) (cond ((error-object? e) 'err) ((symbol? e) e) ((number? e) e) (else 'other)))
+(define prm (make-parameter 'p0))
+(define (run-case n thunk)
+  (set! trace '())
+  (write-string "CASE ") (write n) (newline)
+  (guard (e (#t (write-string "ERR ") (write (kind e)) (newline)))
+    (let ((v (thunk))) (write-string "RES ") (write v) (newline)))
+  (write-string "TRACE ") (write (reverse trace)) (newline))
+"""
+
+RAISING_FOLDS = ["(quotient 7 0)", "(remainder 7 0)", "(quotient '7 '0)", "(+ 1 'a)", "(* \"s\" 2)", "(- 'q)", "(/ 5 (- 2 2))", "(/ 1 0)",
+                 "(quotient 1 (- 3 3))", "(+ 1 (quotient 1 0))", "(+ 2 (* 3 'z))", "(- 5 '#f)", "(remainder (+ 1 2) (* 0 4))", "(+ '(1) 1)"]
+VALUE_FOLDS = [("(+ 1 2)", "3"), ("(* 6 7)", "42"), ("(quotient 9 2)", "4"), ("(- '10 3)", "7"), ("(+ 4611686018427387903 1)", "4611686018427387904")]
+
+
+def handler_programs(rng, n):
+    """programs that COMPILE code (eval) while an exception handler, a guard, a parameterize, a dynamic-wind extent or a
+    thread is active.  The compiled code holds constant arithmetic applications whose evaluation raises, in positions
+    that are never executed (dead) or that are executed (live).  -> (program text, expected RES/ERR line, expected trace):
+    the SPEC is R7RS: compiling executes nothing, so the trace holds only what the EXECUTED code raises, in order, and
+    raise-continuable returns what the handler returns.  Escaping handlers come last (a broken build may not survive them)."""
+    out = []
+    for k in range(n):
+        rf, rf2 = rng.choice(RAISING_FOLDS), rng.choice(RAISING_FOLDS)
+        vf, vv = rng.choice(VALUE_FOLDS)
+        shapes = [("(lambda (x) (if x %s 'fine))" % rf, "fine"),
+                  ("(lambda (x) (if x (begin %s 1) %s))" % (rf, vf), vv),
+                  ("(lambda (x) ((lambda (k) (if x (+ k %s) k)) 5))" % rf, "5"),
+                  ("(lambda (x) (if (if x #f #t) 'fine (car %s)))" % rf, "fine"),
+                  ("(lambda (x) (let ((d '#f)) (if d %s (if x %s 'fine))))" % (rf2, rf), "fine"),
+                  ("(lambda (x) (if '#f %s (if x %s %s)))" % (rf2, rf, vf), vv),
+                  ("(lambda (x) (cond (x %s) ('#f %s) (else (quote ok))))" % (rf, rf2), "ok"),
+                  ("(lambda (x) (define (f) %s) (if x (f) %s))" % (rf, vf), vv)]
+        code, dead = rng.choice(shapes)
+        live = rng.random() < 0.5
+        arg = "#t" if live else "#f"
+        c = k % 9
+        if c == 0:     # returning handler; the code with the raising fold is compiled, the fold never runs
+            p = ("(with-exception-handler (lambda (e) (note (list 'h (kind e))) 99) (lambda () (let ((p (eval '%s env))) (note 'compiled) (let ((v (p #f))) (note 'ran) v))))" % code)
+            exp = ("RES " + dead, "(compiled ran)")
+        elif c == 1:   # guard
+            p = "(guard (e (#t (note (list 'g (kind e))) 'caught)) (let ((p (eval '%s env))) (note 'compiled) (p %s)))" % (code, arg)
+            exp = ("RES caught", "(compiled (g err))") if live else ("RES " + dead, "(compiled)")
+        elif c == 2:   # parameterize + dynamic-wind + guard
+            p = ("(parameterize ((prm 'p1)) (dynamic-wind (lambda () (note 'in)) (lambda () (guard (e (#t (note (list 'g (kind e) (prm))) (list 'caught (prm)))) "
+                 "(let ((p (eval '%s env))) (note (list 'compiled (prm))) (list (p %s) (prm))))) (lambda () (note 'out))))" % (code, arg))
+            exp = ("RES (caught p1)", "(in (compiled p1) (g err p1) out)") if live else ("RES (%s p1)" % dead, "(in (compiled p1) out)")
+        elif c == 3:   # raise-continuable in the executed part: the handler's return value comes back, once
+            p = ("(with-exception-handler (lambda (e) (note (list 'h (kind e))) (if (number? e) (* e 10) 0)) (lambda () (let ((p (eval '(lambda (x) (if x %s (+ (raise-continuable 4) %s))) env))) "
+                 "(note 'compiled) (p #f))))" % (rf, vf))
+            exp = ("RES %d" % (40 + int(vv)), "(compiled (h 4))")
+        elif c == 4:   # nested handlers: both still installed, in the right order, after the compilation
+            p = ("(with-exception-handler (lambda (e) (note (list 'outer (kind e))) 1) (lambda () (with-exception-handler (lambda (e) (note (list 'inner (kind e))) (+ 1 (raise-continuable 'again))) "
+                 "(lambda () (let ((p (eval '%s env))) (note 'compiled) (+ (raise-continuable 'first) (if (procedure? p) 100 0)))))))" % code)
+            exp = ("RES 102", "(compiled (inner first) (outer again))")
+        elif c == 5:   # a whole form evaluated: the raising fold is a statement that runs / sits in a dead branch
+            if live:
+                p = "(guard (e (#t (note (list 'g (kind e))) 'caught)) (note 'before) (let ((v (eval '(begin %s %s) env))) (note 'after) v))" % (rf, vf)
+                exp = ("RES caught", "(before (g err))")
+            else:
+                p = "(guard (e (#t (note (list 'g (kind e))) 'caught)) (note 'before) (let ((v (eval '(if '#f %s %s) env))) (note 'after) v))" % (rf, vf)
+                exp = ("RES " + vv, "(before after)")
+        elif c == 6:   # in a thread, with a parameter binding made inside it
+            p = ("(thread-join! (thread-start! (make-thread (lambda () (parameterize ((prm 't1)) (with-exception-handler (lambda (e) (note (list 'h (kind e))) 99) "
+                 "(lambda () (let ((p (eval '%s env))) (note (list 'compiled (prm))) (list (p #f) (prm))))))))))" % code)
+            exp = ("RES (%s t1)" % dead, "((compiled t1))")
+        elif c == 7:   # the handler is itself inside compiled code; an uncaught live error reaches the case's own guard
+            p = "(let ((p (eval '%s env))) (note 'compiled) (p %s))" % (code, arg)
+            exp = ("ERR err", "(compiled)") if live else ("RES " + dead, "(compiled)")
+        else:          # escaping handler (call/cc)
+            p = ("(call-with-current-continuation (lambda (k) (with-exception-handler (lambda (e) (note (list 'h (kind e))) (k 'escaped)) "
+                 "(lambda () (let ((p (eval '%s env))) (note 'compiled) (p %s))))))" % (code, arg))
+            exp = ("RES escaped", "(compiled (h err))") if live else ("RES " + dead, "(compiled)")
+        out.append((c == 8, p, exp))
+    out.sort(key=lambda t: t[0])
+    return [(p, e) for _, p, e in out]
+
+
+def _handler_part(ctx, dirs):
+    rng = ctx.rng
+    hp = handler_programs(rng, 90 if not ctx.thorough else 3000)
+    text = HPRELUDE + "\n".join("(run-case %d (lambda () %s))" % (i, p) for i, (p, _) in enumerate(hp)) + "\n"
+    outs = {}
+    for v, d in dirs.items():
+        r = _run_file(d, text, "outerH-" + v)
+        outs[v] = _split_cases(r.stdout)
+        if len(outs[v]) != len(hp):
+            ctx.broken("outer-correspondence:C09:handlers:" + v, "build %s ran %d of %d eval-under-handler programs (rc=%s): %s" % (v, len(outs[v]), len(hp), r.returncode, r.stderr[-400:]))
+    order = [v for v in ("default", "customll", "both", "nosimplify") if v in outs]
+    for i, (p, (eres, etr)) in enumerate(hp):
+        ctx.count(1, key=("outerH", p), nontrivial=True)
+        exp = [eres, "TRACE " + etr]
+        replay = _heredoc_replay(HPRELUDE + "(run-case 0 (lambda () %s))\n" % p, list(dirs.values()), "expected: CASE 0 / %s / TRACE %s" % (eres, etr))
+        for v in order:
+            got = outs[v].get(i)
+            if got == exp:
+                continue
+            ref = outs.get("nosimplify", {}).get(i)
+            if v != "nosimplify" and ref == exp:
+                sig = "simplify:compile-time-effect-under-handler" if v == "default" else "build-variant:%s-changes-handler-trace" % v
+                why = "the program's handler / trace / result differs from the SEXP_USE_SIMPLIFY=0 build and from R7RS: compiling code (eval) must execute none of it"
+            else:
+                sig = "sem:handler-trace-differs-from-spec:" + v
+                why = "build %s prints something else than R7RS prescribes for this program (oracle in props/C09.py handler_programs)" % v
+            ctx.violation(sig, input=p, expected=exp, observed=got, variant=v, reference_nosimplify=ref, replay=replay, why=why)
+            break
+    if hp:
+        ctx.sample(dict(kind="outer-eval-under-handler", program=hp[0][0], expected=list(hp[0][1]), outputs={v: outs[v].get(0) for v in outs}))
+    ctx.note("eval-under-handler programs: %d (9 context families x 8 code shapes x %d raising folds), all four builds = R7RS oracle" % (len(hp), len(RAISING_FOLDS)))
+
+
 def _simplify_part(ctx, exe, dirs):
     rng = ctx.rng
     n = 500 if not ctx.thorough else 20000
@@ -742,11 +902,13 @@ def _simplify_part(ctx, exe, dirs):
     text = open(os.path.join(HERE, "..", "harness", "c09_simplify.scm")).read()
     text += "\n".join("(c09-case %d '(lambda () %s))" % (i, p) for i, p in enumerate(progs)) + "\n"
     r = _run_file(d0, text, "inner")
-    before, after = {}, {}
+    before, after, dynobs = {}, {}, {}
     for line in r.stdout.split("\n"):
         f = line.split(" ")
         if len(f) > 2 and f[0].isdigit() and f[1] in ("A", "B"):
             (before if f[1] == "A" else after)[int(f[0])] = f[2:]
+        elif len(f) >= 2 and f[0].isdigit() and f[1] in ("H", "X"):
+            dynobs[int(f[0])] = f[1:]
     if r.returncode != 0 or len(after) != len(progs):
         ctx.broken("inner-correspondence:C09:simplify", "dump harness rc=%s, %d of %d cases: %s" % (r.returncode, len(after), len(progs), (r.stderr or r.stdout)[-600:]))
     reqs, idx, nms = [], [], {}
@@ -760,14 +922,17 @@ def _simplify_part(ctx, exe, dirs):
                 continue
             nms[i] = (nm, a, b)
             # the programs are analysed as (lambda () <program>); their meaning is that of calling the thunk
-            reqs += ["simplify " + " ".join(a), "run A 0 " + " ".join(a), "run A 0 " + " ".join(b), "wf " + " ".join(a),
-                     "run2 400 A 0 " + " ".join(a), "run2 400 A 0 " + " ".join(b)]
+            # the pass ran under an installed handler (7) and a parameter binding: the model is asked under the same state
+            reqs += ["simplify 7:%d " % (i + 1) + " ".join(a), "run A 0 " + " ".join(a), "run A 0 " + " ".join(b), "wf " + " ".join(a),
+                     "run2 400 A 0 " + " ".join(a), "run2 400 A 0 " + " ".join(b), "erased_agree - " + " ".join(a)]
             idx.append(i)
     mo = ctx.run_model(exe, reqs)
     sem, sem2_defined = {}, 0
     for k, i in enumerate(idx):
         nm, a, b = nms[i]
-        m_simpl, m_run, m_run_opt, m_wf, m_run2, m_run2_opt = mo[6 * k: 6 * k + 6]
+        m_simpl, m_run, m_run_opt, m_wf, m_run2, m_run2_opt, m_erased = mo[7 * k: 7 * k + 7]
+        if m_erased != "1":
+            ctx.broken("theorem-instance:ksimplify_refines_simplify", "erase (ksimplify e) <> simplify (erase e) on %s" % progs[i])
         if m_run.startswith("V") and m_run2.startswith("V") and m_run2 != "V proc |" and m_run != m_run2:
             ctx.broken("spec:two-interpreters-differ", "eval gives %s, eval2 gives %s on %s" % (m_run, m_run2, progs[i]))
         if not m_run.startswith("V"):          # outside the let-fragment: the interpreter with closures decides
@@ -778,6 +943,30 @@ def _simplify_part(ctx, exe, dirs):
         ctx.cov["traces_validated_against_impl"] += 1
         replay = "cat %s > /tmp/c09.scm; echo \"(c09-case 0 '(lambda () %s))\" >> /tmp/c09.scm; LD_LIBRARY_PATH=%s CHIBI_MODULE_PATH=%s/lib %s/chibi-scheme /tmp/c09.scm   # A = analysed, B = after sexp_simplify" % (
             os.path.join(HERE, "..", "harness", "c09_simplify.scm"), progs[i].replace('"', '\\"'), d0, d0, d0)
+        # (A) the dynamic state of the compiling program: the model (fold_eval_unobservable) says no handler call during
+        # the pass, the handler still installed afterwards (the probe reaches it), the parameter binding intact
+        obs = dynobs.get(i)
+        if os.environ.get("C09_DEBUG") and obs != ["H", "p", "prm-ok"]: print("DBG", i, obs)
+        if obs != ["H", "p", "prm-ok"]:
+            hreplay = _heredoc_replay(
+                "(import (scheme base) (scheme write) (scheme eval))\n(define prm (make-parameter 0))\n"
+                "(with-exception-handler\n  (lambda (e) (write-string \"HANDLER CALLED: \") (write (if (symbol? e) e 'error)) (newline) 0)\n"
+                "  (lambda () (parameterize ((prm 1))\n    (eval '(lambda () %s) (environment '(scheme base)))\n"
+                "    (write-string \"compiled\") (newline) (raise-continuable 'probe) (write (prm)) (newline))))\n" % progs[i],
+                [d0] + ([dirs["nosimplify"]] if "nosimplify" in dirs else []), "must print exactly: compiled / HANDLER CALLED: probe / 1")
+            if obs is None:
+                pass            # the case produced no dump at all: reported above
+            elif obs[0] == "H" and "h" in obs:
+                ctx.violation("simplify:fold-calls-user-handler", input="(with-exception-handler H (lambda () (eval '(lambda () %s) env)))" % progs[i],
+                              expected="the handler H is not called while the code is compiled (nothing of it is executed): handler calls during the pass = []",
+                              observed="handler called %d time(s) during sexp_simplify; observed calls %s" % (obs.count("h"), " ".join(obs[1:])), replay=hreplay,
+                              why="constant folding evaluates an application that raises with the program's own exception handler installed: "
+                                  "code that is never executed has an observable effect (SEXP_USE_SIMPLIFY=0 never evaluates it); model: Kinded.fold_eval / fold_eval_unobservable")
+            else:
+                ctx.violation("simplify:fold-disturbs-dynamic-state", input="(with-exception-handler H (lambda () (parameterize ((p v)) (eval '(lambda () %s) env) (raise-continuable 'probe) (p))))" % progs[i],
+                              expected="after compiling, the handler H is still installed (the probe reaches it) and (p) is still v: H p prm-ok",
+                              observed=" ".join(obs), replay=hreplay,
+                              why="the constant folder does not restore the exception handler / parameter bindings of the program that called eval (vm.c sexp_apply_no_err_handler)")
         if m_wf != "1":
             ctx.broken("inner-correspondence:C09:wf", "analysed program is not well-formed for the model (lambda-set-vars / lambda identities): %s" % progs[i])
         if m_simpl != " ".join(b):
@@ -840,6 +1029,7 @@ def _simplify_part(ctx, exe, dirs):
                 else:
                     ctx.violation("sem:nosimplify-build-differs-from-spec", input=p, expected=exp, observed=ref, replay=replay,
                                   why="the unoptimised build prints something else than the SPEC interpreter (coq/C09/Simplify.v eval) defines")
+    _handler_part(ctx, dirs)
     ctx.sample(dict(kind="outer-variants", program=allp[len(progs)], outputs={v: outs[v].get(len(progs)) for v in outs}))
     ctx.note("programs whose meaning a SPEC interpreter defines: %d of %d (eval2, with closures: %d)" % (sum(1 for v in sem.values() if v[0].startswith("V")), len(sem), sem2_defined))
     ctx.note("generator distribution (let-fragment programs): %s; rich programs: %d fixed + %s" % (g.stats, len(RICH), g2.stats))
